@@ -12,6 +12,14 @@ Proof. intros; apply nth_error_app1; assumption. Qed.
 Lemma nth_error_app_last : forall A (l : list A) x, nth_error (l ++ [x]) (length l) = Some x.
 Proof. intros. rewrite nth_error_app2 by lia. rewrite Nat.sub_diag. reflexivity. Qed.
 
+Lemma NoDup_app_one : forall A (l : list A) x, NoDup l -> ~ In x l -> NoDup (l ++ [x]).
+Proof.
+  induction l as [|y l IH]; cbn; intros x Hn Hx; [constructor; [tauto|constructor]|].
+  inversion Hn; subst. constructor.
+  - intros Hin. apply in_app_or in Hin. destruct Hin as [Hin|[Hin|[]]]; [tauto|subst; tauto].
+  - apply IH; tauto.
+Qed.
+
 Lemma upd_nth_length : forall f k l, length (upd_nth k f l) = length l.
 Proof. intros f k l; revert k; induction l; destruct k; cbn; auto. Qed.
 
@@ -172,7 +180,11 @@ Section Inv.
                   In (h_h hr) (s_aborted s) -> oi_wire oi <> WOpen \/ s_dropped s = true;
     u_maybe : forall k e oi, In e (s_inflight s) -> owns o s k e ->
                 nth_error (o_incs o) k = Some oi -> oi_wire oi = WMaybe ->
-                (oi_when oi <= s_now s)%N \/ In (oi_id oi) (s_cancels s)
+                (oi_when oi <= s_now s)%N \/ In (oi_id oi) (s_cancels s);
+    (* the timer of an entry that has no owner yet is the one start_request armed *)
+    u_pend_timer : forall e, In e (s_inflight s) -> (forall hr, In hr (s_handlers s) -> h_h hr <> e_h e) ->
+                     In (e_id e, when_of (s_now s) (e_dl e)) (s_timers s);
+    u_abfresh : forall h, In h (s_aborted s) -> h < s_next_h s
   }.
 End Inv.
 
@@ -265,6 +277,9 @@ Section Steps.
       assert (Ho : owns o s k e) by (exists hr, oi'; repeat split; auto).
       destruct (u_maybe0 k e oi Hin Ho Hoi Hm) as [L|R]; [left; exact L|right].
       apply Hc; auto. rewrite B in Hoi. inversion Hoi; subst. congruence.
+    - intros e He Hno. apply in_drop_entry in He. destruct He as [He Hne].
+      apply in_drop_timer. split; [apply u_pend_timer0; auto|exact Hne].
+    - auto.
   Qed.
 
   (* ---- aborting a handle -------------------------------------------------------------------- *)
@@ -272,17 +287,19 @@ Section Steps.
     InvU o s -> s_aborted s' = h :: s_aborted s ->
     (forall k hr oi, nth_error (s_handlers s) k = Some hr -> nth_error (o_incs o) k = Some oi ->
                      h_h hr = h -> oi_wire oi <> WOpen \/ s_dropped s = true) ->
+    h < s_next_h s ->
     s_handlers s' = s_handlers s -> s_next_h s' = s_next_h s -> s_inflight s' = s_inflight s ->
     s_timers s' = s_timers s -> s_cancels s' = s_cancels s ->
     s_now s' = s_now s -> s_dropped s' = s_dropped s -> s_fused s' = s_fused s ->
     InvU o s'.
   Proof.
-    intros o s s' h HI Ha Hlic Hh Hn Hi Ht Hc Hw Hd Hf. destruct HI.
+    intros o s s' h HI Ha Hlic Hlt Hh Hn Hi Ht Hc Hw Hd Hf. destruct HI.
     constructor; rewrite ?Hi, ?Ht, ?Hh, ?Hn, ?Hc, ?Hw, ?Hd, ?Hf; auto.
     - intros e He. destruct (u_owner0 e He) as [[k Hk]|Hx]; [left; exists k|right; exact Hx].
       eapply owns_frame; eauto.
     - intros k hr oi A B Hin. rewrite Ha in Hin. destruct Hin as [Heq|Hin]; [eapply Hlic; eauto|eauto].
     - intros k e oi Hin Ho. apply (u_maybe0 k e oi); auto. eapply owns_frame; [| | |exact Ho]; auto.
+    - intros h0 Hin. rewrite Ha in Hin. destruct Hin as [<-|Hin]; auto.
   Qed.
 
   (* ---- shapes of the table operations ------------------------------------------------------ *)
@@ -458,8 +475,9 @@ Section Steps.
     - destruct (find_entry id s) as [e|] eqn:EF.
       + set (sm := set_aborted s (e_h e :: s_aborted s)).
         assert (HIm : InvU o sm).
-        { eapply (InvU_abort o s sm (e_h e)); try reflexivity; [exact HI|].
-          intros k hr oi Hk Ho Hh. left. eapply due_owner_not_open; eauto. }
+        { eapply (InvU_abort o s sm (e_h e)); try reflexivity; [exact HI| |].
+          - intros k hr oi Hk Ho Hh. left. eapply due_owner_not_open; eauto.
+          - apply (u_efresh _ _ HI). apply (find_entry_some _ _ _ EF). }
         apply (InvU_remove o sm s' id); [exact HIm|..]; try (subst sm; sproj; congruence).
       + apply (InvU_remove o s s' id); [exact HI|..]; try congruence.
   Qed.
@@ -617,5 +635,162 @@ Section Steps.
       rewrite Y3, Y1, Hnw.
       destruct (u_maybe _ _ HI k e y He Ho Hy) as [L|R]; [congruence|left; exact L|right].
       apply Hc; auto. congruence.
+    - intros e He Hno. rewrite Hi in He. apply in_drop_entry in He. destruct He as [He Hne].
+      rewrite Ht, Hnw. apply in_drop_timer. split; [|exact Hne].
+      apply (u_pend_timer _ _ HI e He). rewrite <- Hh. exact Hno.
+    - intros h Hin. rewrite Hn.
+      destruct Hab as [Hab|(e & Hfe & Hab)]; rewrite Hab in Hin.
+      + exact (u_abfresh _ _ HI h Hin).
+      + destruct Hin as [<-|Hin]; [|exact (u_abfresh _ _ HI h Hin)].
+        apply (u_efresh _ _ HI). apply (find_entry_some _ _ _ Hfe).
+  Qed.
+
+  (* closing the last open incarnation of an id that owns nothing (an older incarnation, when a new
+     request with that id has just been accepted) *)
+  Lemma InvU_close : forall o o' (s : st) id w,
+    InvU o s ->
+    o_incs o' = close_at (last_open id (o_incs o)) w (o_incs o) -> is_open w = false ->
+    o_now o' = o_now o -> o_dropped o' = o_dropped o -> (o_eof o = true -> o_eof o' = true) ->
+    pend_id o' = pend_id o -> c_err (o_v o') = c_err (o_v o) ->
+    (forall e k, In e (s_inflight s) -> owns o s k e -> last_open id (o_incs o) <> Some k) ->
+    InvU o' s.
+  Proof.
+    intros o o' s id w HI Hincs Hw Hnow Hdr Heof Hp Hce Hfree.
+    set (kopt := last_open id (o_incs o)) in *.
+    constructor.
+    - rewrite Hincs, close_at_length. exact (u_len _ _ HI).
+    - rewrite Hnow. exact (u_now _ _ HI).
+    - rewrite Hdr. exact (u_dropped _ _ HI).
+    - intros F. apply Heof. exact (u_eof _ _ HI F).
+    - intros k hr oi Hk Hoi. rewrite Hincs in Hoi.
+      destruct (close_at_nth _ _ _ _ _ Hoi) as (y & Hy & E1 & E2 & E3 & E4 & E5 & _).
+      destruct (u_hand _ _ HI k hr y Hk Hy) as (A & B & C & D).
+      rewrite E1, E4, E5. auto.
+    - exact (u_hnodup _ _ HI).
+    - exact (u_enodup _ _ HI).
+    - exact (u_idnodup _ _ HI).
+    - exact (u_efresh _ _ HI).
+    - exact (u_timers _ _ HI).
+    - intros k1 k2 o1 o2 H1 H2 Hid Ho1 Ho2. rewrite Hincs in H1, H2.
+      destruct (close_at_nth _ _ _ _ _ H1) as (y1 & Hy1 & E1 & _ & _ & _ & _ & W1).
+      destruct (close_at_nth _ _ _ _ _ H2) as (y2 & Hy2 & F1 & _ & _ & _ & _ & W2).
+      destruct W1 as [[_ W1]|[_ W1]]; [rewrite W1, Hw in Ho1; discriminate|].
+      destruct W2 as [[_ W2]|[_ W2]]; [rewrite W2, Hw in Ho2; discriminate|].
+      apply (u_one_open _ _ HI k1 k2 y1 y2); auto; congruence.
+    - intros k oi Hoi Hop. rewrite Hincs in Hoi.
+      destruct (close_at_nth _ _ _ _ _ Hoi) as (y & Hy & _ & _ & E3 & _ & _ & W).
+      destruct W as [[_ W]|[_ W]]; [rewrite W in Hop; rewrite Hop in Hw; discriminate Hw|].
+      rewrite E3. apply (u_open_young _ _ HI k y Hy). congruence.
+    - intros e He.
+      destruct (u_owner _ _ HI e He) as [[k Hown]|[Hx Hy]].
+      + left. exists k. pose proof (Hfree e k He Hown) as Hk.
+        destruct Hown as (hr & oi & A & B & C & D & E & F & G).
+        destruct (close_at_nth_fwd kopt w _ _ _ B) as (x & Hx & X1 & X2 & X3 & X4 & W).
+        destruct W as [[W _]|[_ W]]; [contradiction|].
+        exists hr, x. rewrite Hincs. repeat split; auto; try congruence.
+        intros k' oi' Hlt Hoi'. destruct (close_at_nth _ _ _ _ _ Hoi') as (y' & Hy' & Y1 & _).
+        rewrite Y1. eapply G; eauto.
+      + right. rewrite Hp, Hce. auto.
+    - intros k hr oi Hk Hoi Hin. rewrite Hincs in Hoi.
+      destruct (close_at_nth _ _ _ _ _ Hoi) as (y & Hy & _ & _ & _ & _ & _ & W).
+      destruct W as [[_ W]|[Hk' W]]; [left; rewrite W; intro Heq; rewrite Heq in Hw; discriminate Hw|].
+      rewrite W. exact (u_aborted _ _ HI k hr y Hk Hy Hin).
+    - intros k e oi He (hr & oi' & A & B & C & D & E & F & G) Hoi Hm.
+      rewrite Hincs in Hoi, B. rewrite B in Hoi. inversion Hoi; subst oi'.
+      destruct (close_at_nth _ _ _ _ _ B) as (y & Hy & Y1 & _ & Y3 & _ & _ & W).
+      destruct W as [[_ W]|[_ W]]; [rewrite W in Hm; rewrite Hm in Hw; discriminate Hw|].
+      assert (Ho : owns o s k e).
+      { exists hr, y. repeat split; auto; try congruence.
+        intros k' oi'' Hlt Hoi''. destruct (close_at_nth_fwd kopt w _ _ _ Hoi'') as (x' & Hx' & X1 & _).
+        rewrite <- X1, <- Hincs in *. eapply G; eauto. }
+      rewrite Y3, Y1.
+      destruct (u_maybe _ _ HI k e y He Ho Hy) as [L|R]; [congruence|left; exact L|right; congruence].
+    - exact (u_pend_timer _ _ HI).
+    - exact (u_abfresh _ _ HI).
+  Qed.
+
+  (* ---- a request is accepted: start_request ------------------------------------------------ *)
+  Definition all_owned (o : ostate) (s : st) : Prop :=
+    c_err (o_v o) = false -> forall e, In e (s_inflight s) -> exists k, owns o s k e.
+
+  Lemma start_request_shape : forall id dl (s : st) h s',
+    start_request id dl s = Some (h, s') ->
+    tracked id s = false /\ h = s_next_h s
+    /\ s_inflight s' = s_inflight s ++ [{| e_id := id; e_h := h; e_dl := dl |}]
+    /\ s_timers s' = s_timers s ++ [(id, (s_now s + N.min (dl - s_now s) MAX_TIMEOUT)%N)]
+    /\ s_next_h s' = S (s_next_h s)
+    /\ s_handlers s' = s_handlers s /\ s_aborted s' = s_aborted s /\ s_cancels s' = s_cancels s
+    /\ s_now s' = s_now s /\ s_dropped s' = s_dropped s /\ s_fused s' = s_fused s
+    /\ s_respq s' = s_respq s /\ s_permits s' = s_permits s /\ s_waiters s' = s_waiters s
+    /\ s_log s' = s_log s /\ s_t s' = s_t s.
+  Proof.
+    intros id dl s h s' H. unfold start_request in H. destruct (tracked id s) eqn:ET; [discriminate|].
+    injection H as <- <-. sproj. repeat split; reflexivity.
+  Qed.
+
+  Lemma tracked_false_not_in : forall id (s : st), tracked id s = false ->
+    forall e, In e (s_inflight s) -> e_id e <> id.
+  Proof.
+    intros id s H e He Heq. unfold tracked in H.
+    assert (existsb (fun e0 => N.eqb (e_id e0) id) (s_inflight s) = true).
+    { apply existsb_exists. exists e. rewrite Heq, N.eqb_refl. auto. }
+    congruence.
+  Qed.
+
+  Lemma InvU_accept : forall o o' (s s' : st) id dl h,
+    InvU o s -> all_owned o s -> c_err (o_v o) = false ->
+    start_request id dl s = Some (h, s') ->
+    o_incs o' = o_incs o -> o_now o' = o_now o -> o_dropped o' = o_dropped o ->
+    (o_eof o = true -> o_eof o' = true) -> c_err (o_v o') = false ->
+    pend_id o' = Some id ->
+    InvU o' s'.
+  Proof.
+    intros o o' s s' id dl h HI Hall Hce H Hincs Hnow Hdr Heof Hce' Hp.
+    destruct (start_request_shape _ _ _ _ _ H) as (Htr & Hh & Hi & Ht & Hn & Hha & Hab & Hc & Hw & Hd & Hf & _).
+    pose proof (tracked_false_not_in _ _ Htr) as Hfresh.
+    constructor.
+    - rewrite Hincs, Hha. exact (u_len _ _ HI).
+    - rewrite Hnow, Hw. exact (u_now _ _ HI).
+    - rewrite Hdr, Hd. exact (u_dropped _ _ HI).
+    - rewrite Hf. intros F. apply Heof. exact (u_eof _ _ HI F).
+    - intros k hr oi Hk Hoi. rewrite Hha in Hk. rewrite Hincs in Hoi.
+      destruct (u_hand _ _ HI k hr oi Hk Hoi) as (A & B & C & D). rewrite Hn. repeat split; auto.
+    - rewrite Hha. exact (u_hnodup _ _ HI).
+    - rewrite Hi, map_app. cbn. apply NoDup_app_one; [exact (u_enodup _ _ HI)|].
+      intros Hin. apply in_map_iff in Hin. destruct Hin as (e & He1 & He2).
+      pose proof (u_efresh _ _ HI e He2). subst h. lia.
+    - rewrite Hi, map_app. cbn. apply NoDup_app_one; [exact (u_idnodup _ _ HI)|].
+      intros Hin. apply in_map_iff in Hin. destruct Hin as (e & He1 & He2). exact (Hfresh e He2 He1).
+    - intros e He. rewrite Hi in He. apply in_app_or in He. rewrite Hn. destruct He as [He|[<-|[]]].
+      + pose proof (u_efresh _ _ HI e He). lia.
+      + cbn. subst h. lia.
+    - rewrite Hi, Ht, !map_app. cbn. rewrite (u_timers _ _ HI). reflexivity.
+    - rewrite Hincs. exact (u_one_open _ _ HI).
+    - intros k oi Hoi Hop. rewrite Hincs in Hoi. rewrite Hw. exact (u_open_young _ _ HI k oi Hoi Hop).
+    - intros e He. rewrite Hi in He. apply in_app_or in He. destruct He as [He|[<-|[]]].
+      + left. destruct (Hall Hce e He) as (k & hr & oi & A & B & C & D & E & F & G).
+        exists k, hr, oi. rewrite Hha, Hincs, Ht. repeat split; auto. apply in_or_app. left. exact F.
+      + right. cbn. split; [left; exact Hp|]. rewrite Hha. intros hr Hhr Heq.
+        apply In_nth_error in Hhr. destruct Hhr as (k & Hk).
+        assert (Hlt : k < length (o_incs o)).
+        { rewrite (u_len _ _ HI). apply nth_error_Some. congruence. }
+        apply nth_error_Some in Hlt. destruct (nth_error (o_incs o) k) as [oi|] eqn:Eoi; [|congruence].
+        destruct (u_hand _ _ HI k hr oi Hk Eoi) as (_ & _ & _ & D). subst h. lia.
+    - intros k hr oi Hk Hoi Hin. rewrite Hha in Hk. rewrite Hincs in Hoi. rewrite Hab in Hin. rewrite Hd.
+      exact (u_aborted _ _ HI k hr oi Hk Hoi Hin).
+    - intros k e oi He (hr & oi' & A & B & C & D & E & F & G) Hoi Hm.
+      rewrite Hincs in *. rewrite Hha in A. rewrite Hw, Hc.
+      rewrite Hi in He. apply in_app_or in He. destruct He as [He|[<-|[]]].
+      + rewrite Ht in F. apply in_app_or in F. destruct F as [F|[F|[]]].
+        * apply (u_maybe _ _ HI k e oi He); auto. exists hr, oi'. repeat split; auto.
+        * inversion F. exfalso. apply (Hfresh e He). congruence.
+      + (* the new entry has no owner yet *)
+        exfalso. cbn in C.
+        destruct (u_hand _ _ HI k hr oi' A B) as (_ & _ & _ & Dlt). subst h. lia.
+    - intros e He Hno. rewrite Hi in He. rewrite Hha in Hno. rewrite Ht, Hw.
+      apply in_app_or in He. apply in_or_app. destruct He as [He|[<-|[]]].
+      + left. exact (u_pend_timer _ _ HI e He Hno).
+      + right. left. reflexivity.
+    - intros h0 Hin. rewrite Hab in Hin. rewrite Hn. pose proof (u_abfresh _ _ HI h0 Hin). lia.
   Qed.
 End Steps.
